@@ -205,7 +205,11 @@ func genBSC(rng *rand.Rand, degenerate bool) (*bsctypes.ClientState, *bsctypes.C
 	sign := true
 	if degenerate {
 		for i, n := 0, nTwists(rng); i < n; i++ {
-			switch rng.Intn(32) {
+			switch rng.Intn(34) {
+			case 32, 33:
+				// longer than the seal, shorter than vanity+seal
+				cs.Header.Extra = rbytes(rng, 65+rng.Intn(32))
+				tw = append(tw, "extra-below-vanity+seal")
 			case 0, 1, 30, 31:
 				cs.Epoch = 0
 				tw = append(tw, "epoch-zero")
